@@ -23,6 +23,10 @@ def effects():
         O.INSTANCEOF: (2, 1), O.IN: (2, 1), O.THIS: (0, 1), O.CATCH: (0, 0), O.FOR_IN_INIT: (1, 1), O.FOR_OF_INIT: (1, 1),
         O.INC: (1, 1), O.DEC: (1, 1), O.MAKE_CLOSURE: (1, 1), O.BUILD_REGEX: (0, 1), O.TRY_END: (0, 0),
     }
+    # the completion register of program code (the engine may predate it)
+    if hasattr(O, "SET_COMPLETION"):
+        E[O.SET_COMPLETION] = (1, 0)
+        E[O.LOAD_COMPLETION] = (0, 1)
     return E
 
 
